@@ -147,8 +147,19 @@ def facts_for(repo="/repo", profile="debug", force=False, log=None):
         gen = glob.glob(os.path.join(target, "debug", "build", "chess-*", "out", "*.rs"))
         for g in gen:
             shutil.copy(g, tmp)
-        shutil.rmtree(final, ignore_errors=True)
-        os.rename(tmp, final)
+        try:
+            if os.path.isdir(final) and all(os.path.exists(os.path.join(final, e)) for e in EXPECTED):
+                # another process (a check of a different property, working in its own extraction slot) has just published the
+                # facts of this very tree: use those
+                shutil.rmtree(tmp, ignore_errors=True)
+            else:
+                shutil.rmtree(final, ignore_errors=True)
+                os.rename(tmp, final)
+        except OSError:
+            if os.path.isdir(final) and all(os.path.exists(os.path.join(final, e)) for e in EXPECTED):
+                shutil.rmtree(tmp, ignore_errors=True)
+            else:
+                raise
         _prune_cache(keep=final)
         return final, info
     finally:
